@@ -334,6 +334,22 @@ class HidPatch:
         if self._had_exit:
             hid.hidapi_exit = self._exit
         lc.time = self.bus.clock
+        # bus.close_fault: the transport library's close() reports an error after closing
+        # (ledgerblue's HID class happens to swallow those of the hid module, other
+        # transports and versions do not; the middleware's disconnect() expects a
+        # CommException from it).  None: close() as the library does it.
+        self._close = lc.HIDDongleHIDAPI.close
+        bus, orig = self.bus, self._close
+
+        def close(dongle):
+            orig(dongle)
+            f = getattr(bus, "close_fault", None)
+            if f is not None and not isinstance(f, BaseException):
+                f = f()         # a callable deciding, at that moment, whether this close fails
+            if f is not None:
+                bus.log("close-raised")
+                raise f
+        lc.HIDDongleHIDAPI.close = close
         return self
 
     def __exit__(self, *a):
@@ -342,6 +358,7 @@ class HidPatch:
         hid.enumerate, hid.device, ex, lc.time = self._saved
         if self._had_exit:
             hid.hidapi_exit = ex
+        lc.HIDDongleHIDAPI.close = self._close
         return False
 
 
@@ -461,9 +478,22 @@ class TcpPatch:
         import ledgerblue.commTCP as ct
         self._saved = ct.socket
         ct.socket = _FakeSocketModule(self.bus)
+        self._close = ct.DongleServer.close
+        bus, orig = self.bus, self._close
+
+        def close(dongle):      # see HidPatch
+            orig(dongle)
+            f = getattr(bus, "close_fault", None)
+            if f is not None and not isinstance(f, BaseException):
+                f = f()         # a callable deciding, at that moment, whether this close fails
+            if f is not None:
+                bus.log("close-raised")
+                raise f
+        ct.DongleServer.close = close
         return self
 
     def __exit__(self, *a):
         import ledgerblue.commTCP as ct
         ct.socket = self._saved
+        ct.DongleServer.close = self._close
         return False
